@@ -63,28 +63,40 @@ Definition contains (n : ipnet) (ip : ipaddr) : bool :=
   end.
 
 (* ================= the rule map  t.accessRules ================= *)
-(* map[string][]interface{} with the two keys "allow:ip" / "deny:ip"; a key exists iff its
-   list is non-empty (entries are only ever created by append) *)
-Record rules := { r_allow : list ipnet; r_deny : list ipnet }.
-Definition no_rules : rules := {| r_allow := []; r_deny := [] |}.
+(* map[string][]interface{} with the two keys "allow:ip" / "deny:ip"; None = the key is
+   absent.  A present key normally has a non-empty list (entries are created by append);
+   since 1cbe751 denyAll installs the allow key with an EMPTY list. *)
+Record rules := { r_allow : option (list ipnet); r_deny : option (list ipnet) }.
+Definition no_rules : rules := {| r_allow := None; r_deny := None |}.
+(* Target.denyAll (1cbe751): map[string][]interface{}{ipAllowTag: {}} *)
+Definition deny_all_rules : rules := {| r_allow := Some []; r_deny := None |}.
 
 Definition is_nil {A} (l : list A) : bool := match l with [] => true | _ => false end.
+Definition has_key {A} (o : option A) : bool := match o with Some _ => true | None => false end.
 
 (* len(t.accessRules) == 0 *)
-Definition rules_empty (r : rules) : bool := is_nil (r_allow r) && is_nil (r_deny r).
+Definition rules_empty (r : rules) : bool := negb (has_key (r_allow r)) && negb (has_key (r_deny r)).
 
-(* denyByIP (access_rules.go:92-145); [None] = nil IP *)
+(* t.accessRules[tag] = append(t.accessRules[tag], n) *)
+Definition map_append (o : option (list ipnet)) (n : ipnet) : option (list ipnet) :=
+  Some (match o with Some l => l ++ [n] | None => [n] end).
+
+(* denyByIP (access_rules.go:105-158); [None] = nil IP *)
 Definition deny_by_ip (r : rules) (ip : option ipaddr) : bool :=
   match ip with
   | None => false
   | Some ip =>
       if rules_empty r then false else
-      if negb (is_nil (r_allow r)) then
-        (* allow list exists: first containing block returns false, none -> true *)
-        negb (existsb (fun b => contains b ip) (r_allow r))
-      else if negb (is_nil (r_deny r)) then
-        existsb (fun b => contains b ip) (r_deny r)
-      else false
+      match r_allow r with
+      | Some l =>
+          (* allow key exists: first containing block returns false, none (or no block) -> true *)
+          negb (existsb (fun b => contains b ip) l)
+      | None =>
+          match r_deny r with
+          | Some l => existsb (fun b => contains b ip) l
+          | None => false
+          end
+      end
   end.
 
 (* ================= string helpers (ASCII domain) ================= *)
@@ -141,12 +153,12 @@ Section Parse.
         if beq tag ip_allow_tag then
           match value_net (trim_space t1) with
           | None => None
-          | Some n => Some {| r_allow := r_allow r ++ [n]; r_deny := r_deny r |}
+          | Some n => Some {| r_allow := map_append (r_allow r) n; r_deny := r_deny r |}
           end
         else if beq tag ip_deny_tag then
           match value_net (trim_space t1) with
           | None => None
-          | Some n => Some {| r_allow := r_allow r; r_deny := r_deny r ++ [n] |}
+          | Some n => Some {| r_allow := r_allow r; r_deny := map_append (r_deny r) n |}
           end
         else None                                     (* "unknown access item type" *)
     end.
@@ -165,17 +177,31 @@ Section Parse.
   Definition parse_access_rule (k : kind) (opt : str) (r : rules) : rules * bool :=
     parse_items k (split_byte opt 44) r.
 
-  (* ProcessAccessRules: (rule map afterwards, true = nil error).  addTarget logs the
-     error and keeps the target with whatever the map holds (route.go:94-97). *)
+  (* ProcessAccessRules: (rule map afterwards, true = nil error).  Since 1cbe751 every error
+     return is preceded by t.denyAll(): the map becomes {allow:ip: []}.  addTarget logs the
+     error and keeps the target with that map (route.go:94-97). *)
   Definition process_access_rules (allow_opt deny_opt : str) : rules * bool :=
+    if negb (is_nil allow_opt) && negb (is_nil deny_opt) then (deny_all_rules, false) else
+    let '(r1, ok1) := if is_nil allow_opt then (no_rules, true)
+                      else parse_access_rule KAllow allow_opt no_rules in
+    if negb ok1 then (deny_all_rules, false) else
+    if is_nil deny_opt then (r1, true) else
+    let '(r2, ok2) := parse_access_rule KDeny deny_opt r1 in
+    if negb ok2 then (deny_all_rules, false) else (r2, true).
+
+  Definition target_rules (allow_opt deny_opt : str) : rules :=
+    fst (process_access_rules allow_opt deny_opt).
+
+  (* the code before 1cbe751, kept for the three fail-open refutations: an error returned
+     leaving the map as it was (empty for allow+deny, partially filled otherwise) *)
+  Definition process_access_rules_unrepaired (allow_opt deny_opt : str) : rules * bool :=
     if negb (is_nil allow_opt) && negb (is_nil deny_opt) then (no_rules, false) else
     let '(r1, ok1) := if is_nil allow_opt then (no_rules, true)
                       else parse_access_rule KAllow allow_opt no_rules in
     if negb ok1 then (r1, false) else
     if is_nil deny_opt then (r1, true) else parse_access_rule KDeny deny_opt r1.
-
-  Definition target_rules (allow_opt deny_opt : str) : rules :=
-    fst (process_access_rules allow_opt deny_opt).
+  Definition target_rules_unrepaired (allow_opt deny_opt : str) : rules :=
+    fst (process_access_rules_unrepaired allow_opt deny_opt).
 
   (* ---- the intent of a rule text: every parsable item of every given option ---- *)
   Definition item_net (c : str) : option ipnet :=
